@@ -372,13 +372,18 @@ class World(object):
         return call
 
 
-def build(cfg, hist, folder=None, predict_rules=False, on_trans=None):
+def build(cfg, hist, folder=None, predict_rules=False, on_trans=None, before_last=None):
     """Fresh world, all ops of hist replayed. Returns (world, last Trans or None).
-    Returns (None, None) if some op is disabled in its state."""
+    Returns (None, None) if some op is disabled in its state.
+    `before_last(world)` is called just before the last op is applied (used to run the
+    check's own queries on the pre-state, so that anything a query caches in RAM is warm when
+    the last write happens: 'query; write; query' on one object)."""
     w = World(cfg, folder=folder, predict_rules=predict_rules)
     tr = None
     try:
-        for op in hist:
+        for i, op in enumerate(hist):
+            if before_last is not None and i == len(hist) - 1:
+                before_last(w)
             tr = w.apply(op)
             if on_trans:
                 on_trans(w, tr)
